@@ -324,7 +324,7 @@ fn gen_pseudo_value(name: &[u8], rng: &mut Rng) -> Vec<u8> {
         b":scheme" => &[b"", b"ht tp", b"http:", b"h/t", b"1http", b"HTTP", b"h\xfft"],
         b":authority" => &[b"", b"exa mple.com", b"example.com/x", b"a?b", b"a#b", b"user@example.com", b"EXAMPLE.com", b"example.com:99999", b"example.com:", b"[::1]:80", b"a\\b", b":80"],
         b":path" => &[b"", b"no-slash", b"/a b", b"/\x01", b"/\xff", b"/a#frag", b"*"],
-        b":status" => &[b"", b"20", b"2000", b"abc", b"2 0", b"099", b"-10", b"20x"],
+        b":status" => &[b"", b"20", b"2000", b"abc", b"2 0", b"099", b"-10", b"20x", b"+200", b"0404", b"00200", b" 200", b"200 ", b"+99", b"2e2"],
         b":protocol" => &[b"", b"web transport", b"foo", b"WEBTRANSPORT", b"a/b", b"x\x00"],
         _ => &[b""],
     };
@@ -650,6 +650,24 @@ fn check_e2e(kind: MsgKind, fields: &[F], h3_server: bool, seed: u64, rep: &mut 
                 return;
             }
             rep.count("e2e_rejected_with_H3_MESSAGE_ERROR");
+            // "refused on that stream with H3_MESSAGE_ERROR": the refusal is what the peer sees. A
+            // server aborts its response side with the code; a receiver of a malformed response /
+            // trailers asks the peer to stop (explicitly, not by dropping the stream)
+            if let Some(st) = n.streams.get(&0) {
+                let out = st.pipe(h3_side);
+                let inn = st.pipe(1 - h3_side);
+                let explicit_stop = if inn.stop_implicit { None } else { inn.stop_sent };
+                let ok = if h3_side == SERVER && kind == MsgKind::Request {
+                    out.reset_sent == Some(rf::H3_MESSAGE_ERROR)
+                } else {
+                    matches!(explicit_stop, Some(c) if c == rf::H3_MESSAGE_ERROR || c == rf::H3_REQUEST_CANCELLED) || inn.fin_read || inn.reset_delivered
+                };
+                rep.count("e2e_refusal_wire_signal_checked");
+                if !ok {
+                    viol(rep, "e2e-refusal-not-signalled-on-the-stream", format!("{} reported H3_MESSAGE_ERROR but the stream was not aborted towards the peer (response side reset: {:?}, STOP_SENDING: {:?}, fin sent: {})", op, out.reset_sent.map(|c| format!("{:#x}", c)), explicit_stop.map(|c| format!("{:#x}", c)), out.fin_sent), &case);
+                    return;
+                }
+            }
             Got::Rejected(format!("StreamError {:#x} {}", code, reason))
         }
         other => {
